@@ -655,6 +655,7 @@ type loopInfo struct {
 	header *ssa.BasicBlock
 	body   map[*ssa.BasicBlock]bool
 	ord    int
+	writeRows []*Term // 'loop <n> writes': the only backing arrays whose elements the loop writes
 	head   *State // state at the loop head (after havoc and invariants), for prev() in step clauses
 }
 
